@@ -80,6 +80,21 @@ def step (st : State) (line : String) : State × String :=
     | some n, some h, some vs => (init n h vs, "ok")
     | _, _, _ => (st, "bad-op")
   | ["dump"] => (st, "ok | " ++ showState st)
+  | ["rewards", d, v] =>
+    match d.toNat?, v.toNat? with
+    | some d, some v =>
+      if !(st.okAcc d && st.okVal v) then (st, "bad-op") else
+      match (st.vs v).pendingRewards st.height d with
+      | .ok r => (st, "ok | " ++ showState st ++ s!" ret={r}")
+      | .error _ => (st, "err | " ++ showState st)
+    | _, _ => (st, "bad-op")
+  | ["delegation", d, v] =>
+    match d.toNat?, v.toNat? with
+    | some d, some v =>
+      if !(st.okAcc d && st.okVal v) then (st, "bad-op") else
+      let r := (st.vs v).delegationView d
+      (st, "ok | " ++ showState st ++ s!" ret={r.1}:{r.2}")
+    | _, _ => (st, "bad-op")
   | ws =>
     match parseOp ws with
     | none => (st, "bad-op")
